@@ -2,7 +2,7 @@
    Spec side of every comparison: the properties proved in Properties/C17.v for the model (round trip,
    canonical re-encoding, identity = hash of the re-encoding, size = length of the encoding), evaluated on
    what the implementation returned. *)
-From NG Require Export Common.Tactics Common.HarnessLib Codec.Bigint Codec.Wire Codec.TxCodec Codec.ItemCodec.
+From NG Require Export Common.Tactics Common.HarnessLib Codec.Bigint Codec.Wire Codec.TxCodec Codec.ItemCodec Codec.ExecCodec Codec.MptCodec Codec.StateCodec Codec.NetCodec.
 From NG Require Import Common.Sha256.
 Open Scope Z_scope.
 
@@ -27,7 +27,15 @@ Inductive case :=
 | CHeaderDec (sr : bool) (bs : list Z) (impl : dimpl)
 | CBlockDec (sr : bool) (bs : list Z) (impl : dimpl)
 | CItemEnc (i : item) (impl : option (list Z))          (* stackitem.Serialize *)
-| CItemDec (bs : list Z) (impl : option (option (list Z))). (* Deserialize, then Serialize of the result *)
+| CItemDec (bs : list Z) (impl : option (option (list Z))) (* Deserialize, then Serialize of the result *)
+| CMptDec (bs : list Z) (impl : dimpl)                   (* mpt.NodeObject.DecodeBinary; hash = Node.Hash() of branch/extension/leaf *)
+| CMptRootDec (bs : list Z) (impl : dimpl)               (* state.MPTRoot *)
+| CNefDec (bs : list Z) (impl : dimpl)                   (* nef.FileFromBytes *)
+| CPayloadDec (cmd : Z) (bs : list Z) (impl : dimpl)     (* the payload decoder selected by a command byte (no frame) *)
+| CNetAddrDec (bs : list Z) (impl : dimpl)               (* payload.AddressAndTime *)
+| CFrameDec (bs : list Z) (dz : option (list Z)) (impl : dimpl) (* network.Message.Decode; dz = what decompression of the raw payload gives *)
+| CNotifDec (bs : list Z) (impl : dimpl)                 (* state.NotificationEvent *)
+| CAerDec (bs : list Z) (impl : dimpl).                  (* state.AppExecResult (stack items in protected mode) *)
 
 (* decode with [d], re-encode with [w]; identity functions [h] (hashed bytes) and size *)
 Definition dec_check {A} (d : dec A) (w : A -> list Z) (hashed : option (A -> list Z)) (whole : bool)
@@ -48,6 +56,10 @@ Definition dec_check {A} (d : dec A) (w : A -> list Z) (hashed : option (A -> li
       if enc_ok && hash_ok && size_ok then 0%N else 2%N
   | _, _ => 2%N         (* accepted by one side only *)
   end.
+
+Definition sha256dZ (bs : list Z) : list Z := map Z.of_N (sha256d (map Z.to_N bs)).
+(* nef checksum: first four bytes of the double SHA-256 of the body, little-endian *)
+Definition nef_checksum (body : list Z) : Z := from_le (firstn 4 (sha256dZ body)).
 
 Definition check_case (c : case) : N :=
   match c with
@@ -101,4 +113,34 @@ Definition check_case (c : case) : N :=
       | Some i, Some re => if oz_eqb (serialize i) re then 0%N else 2%N
       | _, _ => 2%N
       end
+  | CMptDec bs impl =>
+      if negb (bytes_okb bs) then 3%N else
+      match decode_node bs, impl with
+      | None, None => 0%N
+      | Some (n, _), Some (re, hs, _) =>
+          let hash_ok := match hs with [] => true | _ => zl_eqb (node_hash sha256dZ n) hs end in
+          if zl_eqb (write_node sha256dZ n) re && hash_ok then 0%N else 2%N
+      | _, _ => 2%N
+      end
+  | CMptRootDec bs impl => dec_check read_mptroot write_mptroot (Some write_mptroot_unsigned) false bs impl
+  | CNefDec bs impl =>
+      if negb (bytes_okb bs) then 3%N else
+      match nef_from_bytes nef_checksum bs, impl with
+      | None, None => 0%N
+      | Some f, Some (re, _, _) => if zl_eqb (write_nef f) re then 0%N else 2%N
+      | _, _ => 2%N
+      end
+  | CPayloadDec cmd bs impl =>
+      match payload_decoder false cmd with
+      | Some d => dec_check d (write_payload false)
+                    (if cmd =? 46 then Some (fun p => match p with PExtensible e => write_extensible_unsigned e | _ => [] end) else None) false bs impl
+      | None => 3%N
+      end
+  | CNetAddrDec bs impl => dec_check read_addr write_addr None false bs impl
+  | CFrameDec bs dz impl => dec_check (read_frame (fun _ => dz) false) (write_frame false) None false bs impl
+  | CNotifDec bs impl =>
+      (* the writer is partial (an oversized state array cannot be serialised): the implementation then reports a
+         decoded value that cannot be re-encoded, written by the harness as an empty re-encoding *)
+      dec_check read_notification (fun n => match write_notification n with Some b => b | None => [] end) None false bs impl
+  | CAerDec bs impl => dec_check read_aer (fun a => match write_aer a with Some b => b | None => [] end) None false bs impl
   end.
